@@ -535,4 +535,140 @@ theorem mulSlide_exact (kt : Nat) (hkt : 1 ≤ kt) (mulN : List Nat → List Nat
     refine ⟨res, f1, hvalue _ f2, f3, ?_⟩
     rw [f4, hlo, hul]; omega
 
+/-! ### (C) composition with the generated skeletons -/
+
+theorem mem_of_products {r : Res} {e : Ev} (h : e ∈ products r) : e ∈ r.trace := (List.mem_filter.mp h).1
+
+/-- every product call the skeleton of mpn_mul_n makes is inside its callee's domain (from `mul_n_ok`) -/
+theorem runMulN_domain (P : Params) (hP : Valid P) (n : Nat) (hn : 1 ≤ n) (e : Ev)
+    (he : e ∈ products (runMulN P n)) : domainOk P e = true := by
+  have g := mul_n_ok P hP 0 (n : Int) 2 0 3 0 (by exact_mod_cast hn)
+  have hm := mem_of_products he
+  unfold runMulN at hm
+  generalize Mpir.Gen.MulDispatch.mpn_mul_n P 0 [] 1 0 2 0 3 0 (n : Int) = res at g hm
+  cases res with
+  | void tr => exact g e (by simpa [Res.trace] using hm)
+  | ret tr v => exact absurd g (by simp [GoodVoid])
+  | nofuel tr => exact absurd g (by simp [GoodVoid])
+
+/-- every product call the skeleton of mpn_mul makes is inside its callee's domain (from `mul_ok`) -/
+theorem runMul_domain (P : Params) (hP : Valid P) (un vn : Nat) (hv : 1 ≤ vn) (hu : vn ≤ un) (e : Ev)
+    (he : e ∈ products (runMul P false un vn)) : domainOk P e = true := by
+  have g := mul_ok P hP (un + 2) (un : Int) (vn : Int) 2 0 3 0 (by exact_mod_cast hv) (by exact_mod_cast hu)
+    (by push_cast; omega)
+  have hm := mem_of_products he
+  unfold runMul at hm
+  simp only [Bool.false_eq_true, if_false] at hm
+  generalize Mpir.Gen.MulDispatch.mpn_mul P (un + 2) [] 1 0 2 0 (un : Int) 3 0 (vn : Int) = res at g hm
+  cases res with
+  | ret tr v =>
+    cases v with
+    | ptr b off => exact g.2.2 e (by simpa [Res.trace] using hm)
+    | sz _ => exact absurd g (by simp [Good])
+    | data => exact absurd g (by simp [Good])
+  | void tr => exact absurd g (by simp [Good])
+  | nofuel tr => exact absurd g (by simp [Good])
+
+/-- a value-modelled call inside its domain returns the exact product (`mpn_mul_val_partial` plus definedness) -/
+theorem callValue_exact (P : Params) (hP : Valid P) (e : Ev) (hm : modelled1 e = true) (hd : domainOk P e = true)
+    (x y : Nat) : callValue P e x y = some (x * y) := by
+  have hdef : ∃ r, callValue P e x y = some r := by
+    unfold modelled1 at hm
+    split at hm
+    · rename_i n hargs
+      simp only [Bool.or_eq_true, decide_eq_true_eq] at hm
+      rcases hm with (h | h) | h
+      · have hn : n ≥ 2 := by
+          have : e = ⟨"mpn_kara_mul_n", e.args⟩ := by cases e; simp_all
+          rw [this] at hd
+          unfold domainOk at hd
+          unfold sizeArgs at hargs hd
+          simp only [hargs] at hd
+          simp at hd; omega
+        obtain ⟨hk3, _⟩ := hP
+        refine ⟨x * y, ?_⟩
+        unfold callValue
+        simp only [hargs, h, if_true]
+        exact MulAlgo.kara_mul_n_eq _ (by omega) _ (by omega) x y
+      · exact ⟨_, by unfold callValue; simp [hargs, h]; rfl⟩
+      · exact ⟨_, by unfold callValue; simp [hargs, h]; rfl⟩
+    · rename_i an bn hargs
+      simp only [Bool.or_eq_true, decide_eq_true_eq] at hm
+      rcases hm with (((h | h) | h) | h) | h <;>
+        exact ⟨_, by unfold callValue; simp [hargs, h]; rfl⟩
+    · exact absurd hm (by simp)
+  obtain ⟨r, hr⟩ := hdef
+  rw [hr, mpn_mul_val_partial P hP e hd x y r hr]
+
+/-- the model of mpn_mul_n returns the exact 2n-limb product at every covered size -/
+theorem mulNModel_exact (P : Params) (hP : Valid P) (a b : List Nat) (ha : Limbs a) (hb : Limbs b)
+    (hl : a.length = b.length) (h1 : 1 ≤ a.length) (hc : coveredN P a.length = true) :
+    ∃ r, mulNModel P a b = some r ∧ val r = val a * val b ∧ Limbs r ∧ r.length = 2 * a.length := by
+  unfold coveredN at hc
+  unfold mulNModel
+  generalize hpr : products (runMulN P a.length) = L at hc ⊢
+  match L, hc with
+  | [e], hc =>
+    have hd := runMulN_domain P hP a.length h1 e (by rw [hpr]; simp)
+    simp only []
+    by_cases hbn : e.name = "mpn_mul_basecase"
+    · rw [if_pos hbn]
+      obtain ⟨pv, pL, pn⟩ := mul_basecase_val a b ha hb (by omega)
+      exact ⟨_, rfl, pv, pL, by omega⟩
+    · rw [if_neg hbn]
+      have hm : modelled1 e = true := by simpa [hbn] using hc
+      rw [callValue_exact P hP e hm hd]
+      obtain ⟨t1, t2, t3⟩ := toLimbs_of_lt (n := 2 * a.length) (v := val a * val b)
+        (by have := val_mul_lt a b ha hb; rwa [← hl, ← two_mul] at this)
+      exact ⟨_, rfl, t1, t3, t2⟩
+  | [], hc => exact absurd hc (by simp)
+  | _ :: _ :: _, hc => exact absurd hc (by simp)
+
+/-- mpn_mul as modelled over the generated skeleton returns the exact product wherever `covered` holds -/
+theorem mpnMulModel_exact (P : Params) (hP : Valid P) (u v : List Nat) (hu : Limbs u) (hv : Limbs v)
+    (hv1 : 1 ≤ v.length) (huv : v.length ≤ u.length) (hc : covered P u.length v.length = true) :
+    ∃ r, mpnMulModel P u v = some r ∧ val r = val u * val v ∧ Limbs r ∧ r.length = u.length + v.length := by
+  unfold covered at hc
+  unfold mpnMulModel
+  simp only []
+  rw [if_neg (by omega)]
+  generalize hpr : products (runMul P false u.length v.length) = L at hc ⊢
+  match L, hc with
+  | [], hc => exact absurd hc (by simp)
+  | [e], hc =>
+    have hd := runMul_domain P hP u.length v.length hv1 huv e (by rw [hpr]; simp)
+    simp only [] at hc ⊢
+    by_cases hn : e.name = "mpn_mul_n"
+    · rw [if_pos hn] at hc ⊢
+      simp only [Bool.and_eq_true, decide_eq_true_eq] at hc
+      rw [if_pos hc.1]
+      obtain ⟨r, a1, a2, a3, a4⟩ := mulNModel_exact P hP u v hu hv hc.1 (by omega) hc.2
+      exact ⟨r, a1, a2, a3, by omega⟩
+    · rw [if_neg hn] at hc ⊢
+      by_cases hbn : e.name = "mpn_mul_basecase"
+      · rw [if_pos hbn]
+        obtain ⟨pv, pL, pn⟩ := mul_basecase_val u v hu hv (by omega)
+        exact ⟨_, rfl, pv, pL, pn⟩
+      · rw [if_neg hbn]
+        have hm : modelled1 e = true := by simpa [hbn] using hc
+        rw [callValue_exact P hP e hm hd]
+        obtain ⟨t1, t2, t3⟩ := toLimbs_of_lt (n := u.length + v.length) (v := val u * val v) (val_mul_lt u v hu hv)
+        exact ⟨_, rfl, t1, t3, t2⟩
+  | e :: e2 :: rest, hc =>
+    simp only [] at hc ⊢
+    have hP' := hP
+    obtain ⟨hk3, _, _, hmax, _⟩ := hP'
+    by_cases hbn : e.name = "mpn_mul_basecase"
+    · rw [if_pos hbn] at hc ⊢
+      simp only [decide_eq_true_eq] at hc
+      exact mulChunked_exact _ (by omega) u v hu hv hv1 hc
+    · rw [if_neg hbn] at hc ⊢
+      simp only [Bool.and_eq_true, decide_eq_true_eq, List.all_eq_true, List.mem_range, Bool.or_eq_true] at hc
+      obtain ⟨⟨⟨hn, hgt⟩, hkt⟩, hall⟩ := hc
+      rw [if_pos hn]
+      refine mulSlide_exact _ (by omega) _ u v hu hv hkt hgt ?_
+      intro a b ha hb hl hka hkN
+      have := hall a.length (by omega)
+      exact mulNModel_exact P hP a b ha hb hl (by omega) (by rcases this with h | h; omega; exact h)
+
 end Mpir.MulLoops
